@@ -292,7 +292,7 @@ class Templates:
                         out.append("⟨alt")
                         for a in alts:
                             out.extend(self.render(a, depth + 1, seen, follow))
-                            out.append("|")
+                            out.append("¦")
                         out[-1] = "⟩"
                 else:
                     # follow="fns": helper fns / closures of the crate only; follow=True: also the
@@ -306,7 +306,7 @@ class Templates:
                             out.append("⟨alt")
                             for a in roots:
                                 out.extend(ct.render(a, depth + 2, None, follow))
-                                out.append("|")
+                                out.append("¦")
                             if roots:
                                 out[-1] = "⟩"
                             else:
@@ -321,7 +321,7 @@ class Templates:
                     out.append("⟨alt")
                     for a in alts:
                         out.extend(self.render(a, depth + 1, seen, follow))
-                        out.append("|")
+                        out.append("¦")
                     out[-1] = "⟩"
                 else:
                     out.append("⟨append %s⟩" % tk.expr)
@@ -367,6 +367,52 @@ class Templates:
 
     def text(self, stream):
         return " ".join(self.render(stream))
+
+
+def expand_alts(toks, limit=24):
+    """the token lists a rendered template stands for: each `⟨alt A ¦ B ⟩` replaced by one of its
+    alternatives (all combinations, at most `limit`)"""
+    def parse(i):
+        """sequence until a closing marker; returns (list of items, next index); an item is a str or
+        ('alt', [seq, seq, ..])"""
+        seq = []
+        while i < len(toks):
+            t = toks[i]
+            if t == "⟨alt":
+                alts = []
+                i += 1
+                while True:
+                    sub, i = parse(i)
+                    alts.append(sub)
+                    if i < len(toks) and toks[i] == "¦":
+                        i += 1
+                        continue
+                    break
+                if i < len(toks) and toks[i] == "⟩":
+                    i += 1
+                seq.append(("alt", alts))
+            elif t in ("¦", "⟩"):
+                return seq, i
+            else:
+                seq.append(t)
+                i += 1
+        return seq, i
+
+    def flat(seq):
+        outs = [[]]
+        for it in seq:
+            if isinstance(it, tuple):
+                choices = []
+                for a in it[1]:
+                    choices.extend(flat(a))
+                outs = [o + c for o in outs for c in choices][:limit]
+            else:
+                for o in outs:
+                    o.append(it)
+        return outs
+
+    seq, _ = parse(0)
+    return flat(seq)
 
 
 def alpha(text):
